@@ -6,6 +6,7 @@ import (
 	"go/types"
 	"sort"
 	"strings"
+	"sync"
 
 	"golang.org/x/tools/go/ssa"
 )
@@ -50,8 +51,16 @@ func heapKeysOfStore(base string, t types.Type, out map[string]bool) {
 		}
 	default:
 		out[base] = true
+		if classify(t) == TKBool {
+			boolKeyMu.Lock()
+			boolKeys[base] = true
+			boolKeyMu.Unlock()
+		}
 	}
 }
+
+var boolKeys = map[string]bool{}
+var boolKeyMu sync.Mutex
 
 func (vc *VC) addrKeys(v ssa.Value, out *modSet) {
 	switch a := v.(type) {
@@ -436,6 +445,8 @@ func (vc *VC) stableKey(k string) bool { return false }
 func (vc *VC) enterLoop(fr *frame, li *loopInfo, st *State) *State {
 	p := vc.P
 	invs, auto := vc.loopInvariants(fr, li)
+	vc.curLoopA = vc.allocCounter(st)
+	defer func() { vc.curLoopA = nil }()
 	for _, cl := range invs {
 		g := vc.evalClause(fr, st, cl, nil)
 		vc.oblige(st, "inv.entry", fmt.Sprintf("%sloop%d.%d", fr.prefix, li.ordinal, cl.Idx), "loop invariant holds on entry: "+cl.Text, g, cl.Tags, li.head.Instrs[0].Pos(), false)
@@ -448,6 +459,16 @@ func (vc *VC) enterLoop(fr *frame, li *loopInfo, st *State) *State {
 	ms := vc.blockMods(fr.fn, li.body, map[*ssa.Function]bool{fr.fn: true})
 	st = st.clone()
 	what := fmt.Sprintf("loop%d", li.ordinal)
+	li.aEntry = vc.allocCounter(st)
+	var entryLocs []loc
+	lm, hasLM := vc.loopModClauses(fr, li)
+	if hasLM {
+		c := vc.frameCtx(fr, st)
+		c.useLocals = true
+		for _, cl := range lm {
+			entryLocs = append(entryLocs, vc.evalLoc(c, cl.Expr, fr.contract)...)
+		}
+	}
 	for a := range ms.cells {
 		k := cellKey{a, fr.id}
 		if _, ok := st.cells[k]; ok || a.Parent() == fr.fn {
@@ -461,7 +482,69 @@ func (vc *VC) enterLoop(fr *frame, li *loopInfo, st *State) *State {
 	if ms.cellParams {
 		vc.note("loop %d of %s writes through pointer parameters", li.ordinal, fr.fn.Name())
 	}
-	vc.havocMods(fr, st, ms, what)
+	if hasLM {
+		// precise loop frame: only the listed locations are havocked; the frame is checked at the back edge
+		locs := entryLocs
+		// Objects allocated by earlier iterations have arbitrary contents: every map the body may write
+		// agrees with the loop-entry state only on references allocated before the loop (and outside locs).
+		aEntry := vc.allocCounter(st)
+		li.aEntry = aEntry
+		entry := st.clone()
+		vc.havocLocs(st, locs, what)
+		if ms.alloc || ms.all {
+			byKey := map[string][]loc{}
+			for _, l := range locs {
+				byKey[l.key] = append(byKey[l.key], l)
+			}
+			var keys []string
+			if ms.all {
+				for k := range st.heap {
+					keys = append(keys, k)
+				}
+			} else {
+				for k := range ms.heap {
+					keys = append(keys, k)
+				}
+			}
+			sort.Strings(keys)
+			for _, k := range keys {
+				if k == allocKey || strings.HasPrefix(k, "$visited") || k == "$visited" {
+					continue
+				}
+				srt, known := vc.heapSort[k]
+				if !known {
+					if s, ok := vc.guessKeySort(k); ok {
+						vc.heapInit(k, &s)
+						srt, known = s, true
+					}
+				}
+				if !known || !strings.HasPrefix(string(srt), "(Array") || strings.HasPrefix(k, "ghost$") {
+					continue
+				}
+				cur := vc.heapGet(st, k, srt) // already havocked at locs
+				nm := vc.P.Fresh(k+"@"+what, srt)
+				vc.qSeq++
+				r := vc.P.Var(fmt.Sprintf("r?%d", vc.qSeq), SInt)
+				vc.assume(st, vc.P.Forall([]*Term{r}, vc.P.Implies(vc.P.Le(r, aEntry), vc.P.Eq(vc.P.Select(nm, r), vc.P.Select(cur, r)))))
+				st.heap[k] = nm
+			}
+		}
+		_ = entry
+		a := vc.allocCounter(st)
+		na := vc.P.Fresh("$A@"+what, SInt)
+		vc.assume(st, vc.P.Le(a, na))
+		st.heap[allocKey] = na
+		for hk := range st.heap {
+			if strings.HasPrefix(hk, "$visited.") {
+				st.heap[hk] = vc.P.Fresh(hk, SArrIB)
+			}
+		}
+		li.locs = locs
+		li.precise = true
+		li.modClauses = lm
+	} else {
+		vc.havocMods(fr, st, ms, what)
+	}
 	// values of phis at the head were already made fresh
 	for _, cl := range invs {
 		vc.assume(st, vc.evalClause(fr, st, cl, nil))
@@ -469,15 +552,109 @@ func (vc *VC) enterLoop(fr *frame, li *loopInfo, st *State) *State {
 	for _, a := range auto {
 		vc.assume(st, a.eval(st))
 	}
-	_ = p
+	if li.precise {
+		// the locations the body may write in this iteration (clause evaluated at the head) must be among
+		// those havocked at loop entry or belong to objects allocated since loop entry
+		c := vc.frameCtx(fr, st)
+		c.useLocals = true
+		li.headLocs = nil
+		for _, cl := range li.modClauses {
+			li.headLocs = append(li.headLocs, vc.evalLoc(c, cl.Expr, fr.contract)...)
+		}
+		for n, hl := range li.headLocs {
+			if hl.all || len(hl.idx) == 0 {
+				continue
+			}
+			alts := []*Term{p.Gt(hl.idx[0], li.aEntry)}
+			for _, el := range li.locs {
+				if el.key == hl.key {
+					if len(el.idx) == 0 {
+						alts = append(alts, p.True())
+					} else {
+						alts = append(alts, p.Eq(hl.idx[0], el.idx[0]))
+					}
+				}
+			}
+			vc.oblige(st, "loopframe", fmt.Sprintf("%sloop%d.stable.%d", fr.prefix, li.ordinal, n), "loop frame: the locations named by the loop's modifies clause stay within those released at loop entry (or are fresh): "+hl.key, p.Or(alts...), nil, token.NoPos, false)
+		}
+	}
 	return st
+}
+
+func (vc *VC) loopModClauses(fr *frame, li *loopInfo) ([]*Clause, bool) {
+	if fr.contract == nil {
+		return nil, false
+	}
+	lm, ok := fr.contract.LoopMod[li.ordinal]
+	return lm, ok
+}
+
+// loopFrame: at a back edge of a loop with a modifies clause, every heap map agrees with the loop-head
+// state except at the listed locations and at objects allocated since the head.
+func (vc *VC) loopFrame(fr *frame, li *loopInfo, st *State, head *State) {
+	p := vc.P
+	byKey := map[string][]loc{}
+	for _, l := range li.headLocs {
+		if l.all {
+			return
+		}
+		byKey[l.key] = append(byKey[l.key], l)
+	}
+	aHead := vc.allocCounter(head)
+	keys := make([]string, 0, len(st.heap))
+	for k := range st.heap {
+		keys = append(keys, k)
+	}
+	sort.Strings(keys)
+	for _, k := range keys {
+		if k == allocKey || strings.HasPrefix(k, "$visited") {
+			continue
+		}
+		cur := st.heap[k]
+		old, ok := head.heap[k]
+		if !ok {
+			old = vc.heapDefault(head, k, cur.S)
+			head.heap[k] = old
+		}
+		if cur == old {
+			continue
+		}
+		ls := byKey[k]
+		whole := false
+		for _, l := range ls {
+			if len(l.idx) == 0 {
+				whole = true
+			}
+		}
+		if whole {
+			continue
+		}
+		var goal *Term
+		if !strings.HasPrefix(string(cur.S), "(Array") {
+			goal = p.Eq(cur, old)
+		} else {
+			vc.qSeq++
+			r := p.Var(fmt.Sprintf("r?%d", vc.qSeq), SInt)
+			ex := []*Term{p.Gt(r, aHead), p.Eq(r, p.Int(0))}
+			for _, l := range ls {
+				ex = append(ex, p.Eq(r, l.idx[0]))
+			}
+			goal = p.Forall([]*Term{r}, p.Or(append(ex, p.Eq(p.Select(cur, r), p.Select(old, r)))...))
+		}
+		vc.oblige(st, "loopframe", fmt.Sprintf("%sloop%d.%s", fr.prefix, li.ordinal, sanitize(k)), "loop frame: "+k+" changes only at the locations of the loop's modifies clause", goal, nil, token.NoPos, false)
+	}
 }
 
 func (vc *VC) closeLoop(fr *frame, li *loopInfo, st *State, head *State) {
 	if st.pc.IsFalse() {
 		return
 	}
+	if li.precise && head != nil {
+		vc.loopFrame(fr, li, st, head)
+	}
 	invs, auto := vc.loopInvariants(fr, li)
+	vc.curLoopA = li.aEntry
+	defer func() { vc.curLoopA = nil }()
 	for _, cl := range invs {
 		g := vc.evalClause(fr, st, cl, nil)
 		vc.oblige(st, "inv.preserve", fmt.Sprintf("%sloop%d.%d", fr.prefix, li.ordinal, cl.Idx), "loop invariant is preserved: "+cl.Text, g, cl.Tags, li.head.Instrs[0].Pos(), false)
